@@ -1,5 +1,7 @@
 import Driver.Wire
 import FixModel.Spec.Codec
+import FixModel.SessionBridge
+import Std.Data.HashMap
 /-!
 # fixdriver — one operation per input line, one result per output line
 -/
@@ -16,7 +18,7 @@ def resStr {α} (f : α → String) : Res α → String
 
 def pf (b : Bool) : String := if b then "pass" else "fail"
 
-def step (line : String) : String :=
+def stepLine (line : String) : String :=
   match (line.splitOn " ").filter (· ≠ "") with
   | [] => "bad-op"
   | op :: args =>
@@ -43,14 +45,111 @@ def step (line : String) : String :=
       | _ => none
     r.getD "bad-op"
 
-partial def loop (hin hout : IO.FS.Stream) : IO Unit := do
+/-! ### stateful session ops -/
+
+structure SEntry where
+  cfg : Cfg
+  tmpl : Templates
+  sess : Sess
+
+abbrev DState := Std.HashMap String SEntry
+
+def renderMsg (m : OutMsg) : String :=
+  "M " ++ " ".intercalate ((renderOut m).map fun (t, v) => String.ofList (t.map (fun c => Char.ofNat c.toNat)) ++ "=" ++ hex v) ++ " ;"
+
+def renderOuts (s : Sess) (outs : List Out) : String :=
+  let msgs := outs.filterMap fun o => match o with
+    | .msg m => some (renderMsg m)
+    | .resend m => some (renderMsg m)
+    | _ => none
+  let evs := outs.filterMap fun o => match o with
+    | .event .logon => some "logon"
+    | .event .logoutReq => some "request"
+    | .event .logout => some "logout"
+    | .event .disconnect => some "disconnect"
+    | _ => none
+  let b (x : Bool) := if x then "1" else "0"
+  " ".intercalate msgs ++ " | E " ++ " ".intercalate evs ++ " | S " ++ b s.isLogged ++ " " ++ b s.cancelled ++ " " ++ b s.routerStopped
+
+def pEncs : P (List Bytes) := do
+  let t ← tok
+  if t = "-" then pure []
+  else
+    let parts := t.splitOn ","
+    parts.mapM fun p => match p.toList with
+      | 'x' :: rest => (unhexAux rest [] : Option Bytes)
+      | _ => none
+
+def pOptInt : P (Option Int) := do
+  let t ← tok
+  if t = "-" then pure none else (t.toInt?.map some : Option (Option Int))
+
+def sessOp (st : DState) (args : List String) : DState × String :=
+  match args with
+  | "new" :: sid :: rest =>
+    let r := runP (do
+      let side ← tok
+      let carry ← tok
+      let encs ← pEncs
+      let lo ← pOptInt; let hi ← pOptInt
+      let hb ← pInt; let enc ← pBytes; let user ← pBytes; let pass ← pBytes
+      let sender ← pBytes; let target ← pBytes
+      let inC ← pInt; let outC ← pInt
+      let t1 ← pMsg; let t2 ← pMsg; let t3 ← pMsg; let t4 ← pMsg; let t5 ← pMsg
+      pure (side, carry, encs, lo, hi, hb, enc, user, pass, sender, target, inC, outC, t1, t2, t3, t4, t5)) rest
+    match r with
+    | none => (st, "bad-op")
+    | some (side, carry, encs, lo, hi, hb, enc, user, pass, sender, target, inC, outC, t1, t2, t3, t4, t5) =>
+      let cfg : Cfg := { side := if side = "i" then .initiator else .acceptor, allowedEnc := encs,
+                         hbLimits := match lo, hi with | some a, some b => some (a, b) | _, _ => none }
+      let (inC, outC, store) := match st.get? carry with
+        | some e => (e.sess.inCounter, e.sess.outCounter, e.sess.store)
+        | none => (inC, outC, [])
+      let (s0, outs) := Sess.init cfg { hb, enc, user, pass, sender, target } inC outC store
+      (st.insert sid { cfg, tmpl := ⟨t1, t2, t3, t4, t5⟩, sess := s0 }, renderOuts s0 outs)
+  | op :: sid :: rest =>
+    match st.get? sid with
+    | none => (st, "bad-op")
+    | some e =>
+      let ev : Option (Option Ev) :=
+        match op, rest with
+        | "in", [ap, d] =>
+          match (match d.toList with | 'x' :: r => unhexAux r [] | _ => none) with
+          | none => none
+          | some data =>
+            match abstractIn e.tmpl (strBytes "35") (strBytes "34") (ap = "1") data with
+            | .noType => some (some .inboundNoType)
+            | .panic => some none
+            | .msg m => some (some (.inbound m))
+        | "send", [t] => t.toNat?.map fun n => some (.appSend n)
+        | "logout", [] => some (some .localLogout)
+        | "stop", [] => some (some .localStop)
+        | "deadline", [] => some (some .closeDeadline)
+        | "intimer", [] => some (some .inTimer)
+        | "outtimer", [] => some (some .outTimer)
+        | _, _ => none
+      match ev with
+      | none => (st, "bad-op")
+      | some none => (st, "panic")
+      | some (some ev) =>
+        let (s1, outs) := step e.cfg e.sess ev
+        (st.insert sid { e with sess := s1 }, renderOuts s1 outs)
+  | _ => (st, "bad-op")
+
+def stepS (st : DState) (line : String) : DState × String :=
+  match (line.splitOn " ").filter (· ≠ "") with
+  | "sess" :: args => sessOp st args
+  | _ => (st, stepLine line)
+
+partial def loop (hin hout : IO.FS.Stream) (st : DState) : IO Unit := do
   let line ← hin.getLine
   if line.isEmpty then return ()
-  hout.putStrLn (step (line.trimAscii.toString))
-  loop hin hout
+  let (st', out) := stepS st (line.trimAscii.toString)
+  hout.putStrLn out
+  loop hin hout st'
 
 def main : IO Unit := do
   let hin ← IO.getStdin
   let hout ← IO.getStdout
-  loop hin hout
+  loop hin hout {}
   hout.flush
